@@ -21,6 +21,13 @@ Qed.
 Lemma seg_app (l : list A) a n m : seg l a n ++ seg l (a + n) m = seg l a (n + m).
 Proof. unfold seg. rewrite <- skipn_skipn'. symmetry. apply firstn_add. Qed.
 
+Lemma seg_skip (l : list A) a n : seg l a n ++ skipn (a + n) l = skipn a l.
+Proof. unfold seg. rewrite <- skipn_skipn'. apply firstn_skipn. Qed.
+
+Lemma split4 (l : list A) a n m :
+  l = firstn a l ++ seg l a n ++ seg l (a + n) m ++ skipn (a + n + m) l.
+Proof. rewrite seg_skip, seg_skip. symmetry. apply firstn_skipn. Qed.
+
 Lemma seg_length_le (l : list A) a n : length (seg l a n) <= n.
 Proof. unfold seg. rewrite firstn_length. lia. Qed.
 
